@@ -209,8 +209,28 @@ Definition rule_counts (s : string) : option counts :=
 Definition show_counts (c : counts) : string :=
   concat_sep "," (map (fun p : string * N => fst p ++ ":" ++ dec_of_N (snd p)) c).
 
-(** * Requests: [(parse ID "text")] and [(parse-rules ID "text")], the text escaped as
-    by pdlast._q.  Replies [ID<TAB>status<TAB>rest]. *)
+(** * The pair tree as text: [(rule START END child ...)] *)
+Fixpoint show_pair (p : pair) : string :=
+  match p with
+  | Pair r s e _ kids =>
+      "(" ++ r ++ " " ++ dec_of_N s ++ " " ++ dec_of_N e
+          ++ (fix go (l : list pair) : string :=
+                match l with
+                | [] => EmptyString
+                | k :: l' => " " ++ show_pair k ++ go l'
+                end) kids ++ ")"
+  end.
+
+Definition show_parse_result (r : parse_result) : string :=
+  match r with
+  | ParseOk ps => "ok " ++ sp_join (map show_pair ps)
+  | ParseFail => "err"
+  | OutOfFuel => "fuel"
+  | BadGrammar n => "badgrammar " ++ n
+  end.
+
+(** * Requests: [(parse ID "text")], [(parse-rules ID "text")] and [(parse-tree ID "text")],
+    the text escaped as by pdlast._q.  Replies [ID<TAB>status<TAB>rest]. *)
 Definition tab : string := String "009"%char "".
 
 Definition parse_request (line : string) : string :=
@@ -222,6 +242,11 @@ Definition parse_request (line : string) : string :=
         match rule_counts text with
         | Some c => id ++ tab ++ "ok" ++ tab ++ show_counts c
         | None => id ++ tab ++ "none" ++ tab
+        end
+      else if String.eqb op "parse-tree" then
+        match parse pdl_grammar start_rule (default_fuel text) text with
+        | ParseOk ps => id ++ tab ++ "ok" ++ tab ++ sp_join (map show_pair ps)
+        | r => id ++ tab ++ show_parse_result r ++ tab
         end
       else id ++ tab ++ "bad" ++ tab ++ "op"
   | _ => "?" ++ tab ++ "bad" ++ tab ++ "line"
